@@ -26,6 +26,7 @@ type GenerateSettings struct {
 	typeUnmarshallers map[string]string
 	typeLengthers     map[string]string
 	customRecordTypes map[string]struct{}
+	enumSizes         map[string]uint8
 
 	ImportGenerationMode
 	imported          []File
@@ -402,6 +403,10 @@ func (f File) Generate(inputWriter io.Writer, settings GenerateSettings) error {
 	settings.typeUnmarshallers = f.typeUnmarshallers(settings)
 	settings.typeLengthers = f.typeLengthers()
 	settings.customRecordTypes = f.customRecordTypes()
+	settings.enumSizes = make(map[string]uint8, len(f.Enums))
+	for _, en := range f.Enums {
+		settings.enumSizes[en.Name] = fixedSizeTypes[en.SimpleType]
+	}
 
 	usedTypes := f.usedTypes()
 	if settings.PackageName == "" && f.GoPackage != "" {
@@ -649,6 +654,9 @@ func writeFieldReadByter(name string, typ FieldType, w *iohelp.ErrorWriter, sett
 		writeLineWithTabs(w, "}", depth)
 	} else if typ.Map != nil {
 		lnName := lengthName(settings)
+		if safe {
+			writeLengthCheck(w, "4", depth)
+		}
 		writeLineWithTabs(w, lnName+" := iohelp.ReadUint32Bytes(buf[at:])", depth)
 		writeLineWithTabs(w, "at += 4", depth)
 		writeLineWithTabs(w, "%ASGN = make(%TYPE,"+lnName+")", depth, name, typ.Map.goString(settings))
@@ -674,6 +682,9 @@ func writeFieldReadByter(name string, typ FieldType, w *iohelp.ErrorWriter, sett
 			writeLineWithTabs(w, format, depth, name, typ.goString(settings))
 		} else {
 			if sz, ok := fixedSizeTypes[simpleTyp]; ok && safe {
+				writeLengthCheck(w, strconv.Itoa(int(sz)), depth, name)
+			} else if sz, ok := settings.enumSizes[simpleTyp]; ok && safe {
+				// enums are read as their fixed-size base integer
 				writeLengthCheck(w, strconv.Itoa(int(sz)), depth, name)
 			}
 			writeLineWithTabs(w, settings.typeByteReaders[simpleTyp], depth, name, typ.goString(settings))
